@@ -51,6 +51,9 @@ StrCells == {[k |-> "PlainDate.fromStr", n |-> n] : n \in EdgeDays}
             \cup {[k |-> kk, n |-> n, t |-> t] : kk \in {"PlainDateTime.fromStr", "Instant.fromStr"}, n \in {MinDay - 1, MinDay, MinDay + 1, MaxDay, MaxDay + 1}, t \in {Midnight, T1, TLast}}
 ZdtCells == {[k |-> "ZonedDateTime.new", ns |-> Add(b, FromInt(d))] : b \in {MaxInstantBig, Neg(MaxInstantBig)}, d \in Deltas}
 DateEpochCells == {[k |-> "PlainDate.epochNsUtc", n |-> n] : n \in {MinDay, MinDay + 1, MaxDay, 0}}
+\* PlainDate.toZonedDateTime({timeZone: UTC, plainTime}): the combined date-time must be within the date-time limits (step 6.c) and its
+\* instant within the instant limits; tt = "none" is the start of the day
+DateToZonedCells == {[k |-> "PlainDate.toZonedUtc", n |-> n, tt |-> tt] : n \in {MinDay, MinDay + 1, MaxDay - 1, MaxDay, 0}, tt \in {"none", "midnight", "t1", "last"}}
 InstNewCells == {[k |-> "Instant.new", ns |-> Add(b, FromInt(d))] : b \in {MaxInstantBig, Neg(MaxInstantBig)}, d \in Deltas} \cup {[k |-> "Instant.new", ns |-> MulSmall(MaxInstantBig, 2)]}
 InstAddCells == {[k |-> "Instant.add", i |-> Add(b, FromInt(d0)), ns |-> FromInt(d), sub |-> s] : b \in {MaxInstantBig, Neg(MaxInstantBig)}, d0 \in {-1, 0, 1} , d \in Deltas, s \in BOOLEAN} 
 InstAddCellsOK == {c \in InstAddCells : InInstantRange(c.i)}
@@ -63,7 +66,7 @@ DurAddCells == {[k |-> "Duration.add", a |-> a, b |-> b] :
                   b \in {Dur10(Zero, Zero, Zero, Zero, Zero, Zero, One, Zero, Zero, Zero), Dur10(Zero, Zero, Zero, Zero, Zero, Zero, Neg(One), Zero, Zero, Zero),
                          Dur10(Zero, Zero, Zero, Zero, Zero, Zero, Zero, FromInt(999), Zero, Zero), Dur10(Zero, Zero, Zero, Zero, Zero, Zero, Zero, FromInt(1000), Zero, Zero),
                          Dur10(Zero, Zero, Zero, Zero, Zero, Zero, Zero, FromInt(-999), Zero, Zero), Dur10(Zero, Zero, Zero, Zero, Zero, Zero, Zero, FromInt(-1000), Zero, Zero)}}
-Cells == DateNewCells \cup DateAddCells \cup DateAddMonthCells \cup DateAddWeekCells \cup DTNewCells \cup DTAddCells \cup DTRoundCells \cup DateToDTCells \cup DateEpochCells
+Cells == DateNewCells \cup DateAddCells \cup DateAddMonthCells \cup DateAddWeekCells \cup DTNewCells \cup DTAddCells \cup DTRoundCells \cup DateToDTCells \cup DateEpochCells \cup DateToZonedCells
          \cup DateConvCells \cup StrCells \cup ZdtCells \cup InstNewCells \cup InstAddCellsOK \cup InstMsCells \cup InstRoundCellsOK \cup DurAddCells
 
 \* the call (op, args) and its expected outcome
@@ -86,6 +89,11 @@ Call(c) ==
     [] c.k = "PlainDateTime.fromStr" -> [op |-> c.k, args |-> [dt |-> DTJ(DT(CivilFromDays(c.n), c.t))], out |-> OutDT(DTNew(DT(CivilFromDays(c.n), c.t)))]
     [] c.k = "Instant.fromStr" -> [op |-> c.k, args |-> [dt |-> DTJ(DT(CivilFromDays(c.n), c.t))], out |-> InstantNew(Add(Mul(DayNsBig, FromInt(c.n)), TimeNsOf(c.t)))]
     [] c.k = "ZonedDateTime.new" -> [op |-> c.k, args |-> [ns |-> c.ns], out |-> InstantNew(c.ns)]
+    [] c.k = "PlainDate.toZonedUtc" ->
+         LET t == CASE c.tt = "t1" -> T1 [] c.tt = "last" -> TLast [] OTHER -> Midnight
+             ns == Add(Mul(DayNsBig, FromInt(c.n)), TimeNsOf(t))
+         IN [op |-> "PlainDate.toZonedUtc", args |-> IF c.tt = "none" THEN [recv |-> CivilFromDays(c.n)] ELSE [recv |-> CivilFromDays(c.n), time |-> t],
+             out |-> IF (c.tt # "none" /\ DTNew(DT(CivilFromDays(c.n), t)).kind # "ok") \/ ~InInstantRange(ns) THEN ErrRange ELSE Ok(ns)]
     [] c.k = "PlainDate.epochNsUtc" -> [op |-> "PlainDate.epochNsUtc", args |-> [recv |-> CivilFromDays(c.n)],
                                         out |-> IF c.n > MinDay THEN Ok(Mul(DayNsBig, FromInt(c.n))) ELSE ErrRange]
     [] c.k = "Instant.new" -> [op |-> "Instant.new", args |-> [ns |-> c.ns], out |-> InstantNew(c.ns)]
